@@ -55,6 +55,8 @@ pub fn damages(op: usize, text: &str, sites: &[Site], stream: &Stream) -> Vec<(S
                 if let Site::Closer { pos } = s {
                     let other = if b[*pos] == b']' { "}" } else { "]" };
                     out.push((format!("{}{}{}", &text[..*pos], other, &text[*pos + 1..]), "swap"));
+                    // an extra closer of the other kind in front of the right one
+                    out.push((format!("{}{}{}", &text[..*pos], other, &text[*pos..]), "extra-wrong-closer"));
                 }
             }
         }
@@ -119,11 +121,17 @@ pub fn damages(op: usize, text: &str, sites: &[Site], stream: &Stream) -> Vec<(S
         }
         7 => {
             for s in sites {
-                if let Site::ImplicitKey { start, end, quoted } = s {
+                if let Site::ImplicitKey { start, end, quoted, flow_pair } = s {
                     // lengthen the key beyond 1024 characters (inside the quotes for a quoted key)
                     let at = if *quoted { *end - 1 } else { *end };
                     if at > *start {
-                        out.push((format!("{}{}{}", &text[..at], "x".repeat(1100), &text[at..]), if *quoted { "long-quoted-key" } else { "long-plain-key" }));
+                        let class = match (*flow_pair, *quoted) {
+                            (false, true) => "long-quoted-key",
+                            (false, false) => "long-plain-key",
+                            (true, true) => "long-quoted-key-in-flow-pair",
+                            (true, false) => "long-plain-key-in-flow-pair",
+                        };
+                        out.push((format!("{}{}{}", &text[..at], "x".repeat(1100), &text[at..]), class));
                     }
                 }
             }
@@ -179,15 +187,30 @@ pub fn damages(op: usize, text: &str, sites: &[Site], stream: &Stream) -> Vec<(S
         }
         10 => {
             for s in sites {
-                if let Site::PlainValue { start, len } = s {
+                if let Site::PlainValue { start, len, doc } = s {
                     out.push((format!("{}*zz-undefined{}", &text[..*start], &text[*start + *len..]), "alias"));
+                    // an anchor of an *earlier* document does not count
+                    for name in earlier_only(stream, *doc, &|n| n.anchor.clone()) {
+                        out.push((format!("{}*{name}{}", &text[..*start], &text[*start + *len..]), "alias-to-earlier-document"));
+                    }
                 }
             }
         }
         11 => {
             for s in sites {
-                if let Site::PlainValue { start, .. } = s {
+                if let Site::PlainValue { start, doc, .. } = s {
                     out.push((format!("{}!zz!x {}", &text[..*start], &text[*start..]), "handle"));
+                    // a handle declared only by an earlier document's %TAG directive
+                    let here: Vec<&str> = stream.docs[*doc].directives.iter().filter_map(|d| if let crate::model::Directive::Tag(h, _) = d { Some(h.as_str()) } else { None }).collect();
+                    for d in &stream.docs[..*doc] {
+                        for dir in &d.directives {
+                            if let crate::model::Directive::Tag(h, _) = dir {
+                                if h.len() > 2 && !here.contains(&h.as_str()) {
+                                    out.push((format!("{}{h}x {}", &text[..*start], &text[*start..]), "handle-of-earlier-document"));
+                                }
+                            }
+                        }
+                    }
                 }
             }
         }
@@ -241,6 +264,11 @@ pub fn check(info: &mut CaseInfo, tree: &[u8], layout: &[u8], op_sel: u8, site_s
     let ds = damages(op, &text, &sites, &stream);
     let (damaged, class) = &ds[(site_sel as usize * ds.len()) >> 16];
     ensure!(*damaged != text, "generator", "damage operator {} did not change the text", OPS[op]);
+    // the same damaged stream with CR LF line breaks (one case in four): still ill-formed
+    let crlf = op_sel & 3 == 3 && !damaged.contains('\r');
+    let damaged_owned = if crlf { damaged.replace('\n', "\r\n") } else { damaged.clone() };
+    let damaged = &damaged_owned;
+    info.class_if(crlf, "damaged-stream-with-CRLF-breaks");
     for b in [Backend::Str, Backend::Buffered] {
         let o = parse_with(b, damaged);
         if o.error.is_none() {
@@ -293,14 +321,14 @@ impl Property for C06P {
     }
     fn rule(&self) -> String {
         "A well-formed stream of the C03 generator (checked to be accepted) with exactly one damage operator applied at a generated \
-         site recorded by the renderer: D01 cut before a closing quote, D02 cut before a flow closer, D03 swap ] and }, D04 tab instead \
+         site recorded by the renderer: D01 cut before a closing quote, D02 cut before a flow closer, D03 swap ] and } or put an extra closer of the other kind before the right one, D04 tab instead \
          of the indentation of the first entry of a nested block collection, D05 re-indent a non-first entry strictly between parent and \
          own indentation (gap >= 2), D06 put a flow continuation line at the enclosing block's indentation (sub-classes by first token), \
-         D07 break a quoted implicit key (of a block mapping, or of a single pair in a flow sequence) over two lines, D08 lengthen an implicit key (plain / quoted) by 1100 characters, D09 append a \
+         D07 break a quoted implicit key (of a block mapping, or of a single pair in a flow sequence) over two lines, D08 lengthen an implicit key (plain / quoted; of a block mapping or of a single pair in a flow sequence) by 1100 characters, D09 append a \
          second quoted / flow root after a completed quoted / flow root, D10 unknown escape letters and \\x \\u \\U with a missing or non-hexadecimal digit (letter, sign, blank, underscore), D11 replace \
-         a plain value by an alias to a name never anchored, D12 prefix a value with '!zz!x', D13 two %YAML lines, D14 a directive before \
+         a plain value by an alias to a name never anchored or anchored only in an earlier document, D12 prefix a value with '!zz!x' or with a handle declared only by an earlier document, D13 two %YAML lines, D14 a directive before \
          a bare document or at the end of the stream, D15 text after '...' on the same line. Plus the 94 error cases of the test suite. \
-         Oracle: iteration ends in Err on StrInput and BufferedInput. The operator is chosen among those with a site in the stream. \
+         One damaged stream in four is additionally converted to CR LF line breaks. Oracle: iteration ends in Err on StrInput and BufferedInput. The operator is chosen among those with a site in the stream. \
          Non-trivial = undamaged accepted and damaged differs; distinct by (operator, damaged text)."
             .into()
     }
@@ -419,4 +447,31 @@ fn flow_pair_keys(ctx: &mut Ctx) {
             }
         }
     }
+}
+
+
+/// names (by `get`) that occur in documents before `doc` and nowhere in `doc` itself
+fn earlier_only(stream: &Stream, doc: usize, get: &dyn Fn(&crate::model::Node) -> Option<String>) -> Vec<String> {
+    fn collect(n: &crate::model::Node, get: &dyn Fn(&crate::model::Node) -> Option<String>, out: &mut Vec<String>) {
+        if let Some(x) = get(n) {
+            out.push(x);
+        }
+        match &n.kind {
+            Kind::Seq { items, .. } => items.iter().for_each(|i| collect(i, get, out)),
+            Kind::Map { pairs, .. } => pairs.iter().for_each(|(k, v)| {
+                collect(k, get, out);
+                collect(v, get, out);
+            }),
+            _ => {}
+        }
+    }
+    let mut here = vec![];
+    collect(&stream.docs[doc].root, get, &mut here);
+    let mut earlier = vec![];
+    for d in &stream.docs[..doc] {
+        collect(&d.root, get, &mut earlier);
+    }
+    earlier.sort();
+    earlier.dedup();
+    earlier.into_iter().filter(|n| !here.contains(n)).collect()
 }
